@@ -14,7 +14,7 @@
    rounding of the multiplications and the checked additions are as in the code. *)
 Require Import Base Constants ConfigGen Fixed Curve Config Emode ConfigPaths.
 
-Inductive req_type := RInitial | RMaint.
+Inductive req_type := CRInitial | CRMaint.
 
 Record position := mkPos {
   p_is_liab : bool;            (* balance.get_side() *)
@@ -33,11 +33,11 @@ Definition calc_value_w (amount price scale w : fx) : res fx :=
   ok_or (cdiv v scale) EMathError.
 
 Definition bank_asset_weight (rt : req_type) (c : bank_cfg) : fx :=
-  match rt with RInitial => bc_awi c | RMaint => bc_awm c end.
+  match rt with CRInitial => bc_awi c | CRMaint => bc_awm c end.
 Definition bank_liab_weight (rt : req_type) (c : bank_cfg) : fx :=
-  match rt with RInitial => bc_lwi c | RMaint => bc_lwm c end.
+  match rt with CRInitial => bc_lwi c | CRMaint => bc_lwm c end.
 Definition entry_weight (rt : req_type) (e : emode_entry) : fx :=
-  match rt with RInitial => ee_init e | RMaint => ee_maint e end.
+  match rt with CRInitial => ee_init e | CRMaint => ee_maint e end.
 
 (* the weight chosen in calc_weighted_asset_value before the init discount *)
 Definition asset_weight (rt : req_type) (b : cbank) (recon : list emode_entry) : fx :=
@@ -50,11 +50,11 @@ Definition asset_weight (rt : req_type) (b : cbank) (recon : list emode_entry) :
 Definition weighted_asset_value (rt : req_type) (recon : list emode_entry) (p : position) : res fx :=
   let c := cb_cfg (p_bank p) in
   if bc_risk_tier c =? RISK_COLLATERAL then
-    if (bc_op_state c =? OP_REDUCE_ONLY) && (match rt with RInitial => true | RMaint => false end) then Ok 0
+    if (bc_op_state c =? OP_REDUCE_ONLY) && (match rt with CRInitial => true | CRMaint => false end) then Ok 0
     else
       let w := asset_weight rt (p_bank p) recon in
       let* w' := match rt, p_discount p with
-                 | RInitial, Some d => ok_or (cmul w d) EMathError
+                 | CRInitial, Some d => ok_or (cmul w d) EMathError
                  | _, _ => Ok w
                  end in
       calc_value_w (p_amount p) (p_price p) (p_scale p) w'
